@@ -87,7 +87,7 @@ class SolvedAllele:
 
     def mutations(self):
         """Set of allele mutations."""
-        m = self.gene.alleles[self.major].func_muts
+        m = set(self.gene.alleles[self.major].func_muts)
         if self.minor:
             m |= self.gene.alleles[self.major].minors[self.minor].neutral_muts
         m |= set(self.added)
